@@ -237,7 +237,10 @@ RegionAt(c, pos) == LET rs == Regions(c) IN rs[CHOOSE i \in 1..Len(rs) : rs[i].l
 \* ---------------------------------------------------------------- TLV-level edits of the final tree
 \* lvl "top": i indexes the elements inside the packet; lvl "name": i indexes the name components.
 \* op: del(i) dup(i) swap(i,i+1) lenp(i: declared length + 1) ins(i: an unknown non-critical element
-\* before element i; i = n+1 appends) insc (same, critical type).  The Interest's Name element itself
+\* before element i; i = n+1 appends) insc (same, critical type); svext1 / svext4 (1 resp. 4 octets appended to
+\* the signature VALUE) and svcut1 (its last octet dropped) - a forger's edit: the L of SignatureValue, every
+\* enclosing length and, for an Interest, the parameters digest are recomputed, so the packet is well-formed,
+\* its signed portion is untouched and only the signature value differs.  The Interest's Name element itself
 \* is not edited at top level (which name the signature then covers is not defined by the statement).
 Ed(lvl, op, i, sig, dig) == [lvl |-> lvl, op |-> op, i |-> i, sig |-> sig, dig |-> dig]
 TopEdits(c) ==
@@ -262,6 +265,10 @@ TopEdits(c) ==
   IN one("del") \cup one("dup") \cup one("lenp")
      \cup { Ed("top", "swap", i, s2(i), d2(i)) : i \in lo..(k - 1) }
      \cup { Ed("top", op, j, sI(j), dI(j)) : op \in {"ins", "insc"}, j \in 1..(k + 1) }
+     \* the digest is recomputed by the forger, so the digest check must still agree with a recomputation ("same")
+     \cup (IF Signed(c) THEN { Ed("top", op, sv, "reject", IF NeedDigest(c) THEN "same" ELSE "na") :
+                                 op \in {"svext1", "svext4"} \cup (IF c.sg.a > 0 THEN {"svcut1"} ELSE {}) }
+           ELSE {})
 
 NameEdits(c) ==
   LET cs == FinalName(c)  n == Len(cs)
@@ -378,13 +385,16 @@ LawEdits(c) ==
               top == SignedRange(c)[Len(SignedRange(c))] IN
           (e.sig = "reject" <=> IF IsInterest(c) THEN top.lo < at /\ at <= top.hi
                                 ELSE top.lo < at /\ at < top.hi))
+    /\ (e.op \in {"svext1", "svext4", "svcut1"} => Signed(c) /\ R[e.i] = "sigValue" /\ e.sig = "reject")
     /\ (e.lvl = "top" /\ NeedDigest(c) /\ e.op \in {"del", "dup", "lenp"} =>
           (e.dig = "fail" <=> Overlap(Iv(O[e.i], O[e.i] + Size(F.kids[e.i])), DigestRange(c))
                               \/ O[e.i] >= DigestRange(c).lo))
     /\ (e.lvl = "top" /\ NeedDigest(c) /\ e.op \in {"ins", "insc"} =>
           LET at == IF e.i <= Len(R) THEN O[e.i] ELSE Size(F) IN (e.dig = "fail" <=> at > DigestRange(c).lo))
 
-Laws(c) == LawOneElement(c) /\ LawShrink(c) /\ LawParseBack(c) /\ LawRanges(c) /\ LawDigestOp(c)
+\* a signed packet always offers the forger's signature-value edits
+LawSvEdits(c) == Signed(c) => \E e \in Edits(c) : e.op = "svext1"
+Laws(c) == LawSvEdits(c) /\ LawOneElement(c) /\ LawShrink(c) /\ LawParseBack(c) /\ LawRanges(c) /\ LawDigestOp(c)
            /\ LawRegions(c) /\ LawEdits(c)
 
 \* ---------------------------------------------------------------- what the harness gets per configuration
